@@ -1363,6 +1363,18 @@ func (p *InlineParser) processEmphasis(state *inlineState, stackBottom int) {
 	for i := range openersBottom {
 		openersBottom[i] = stackBottom
 	}
+	// openersBottom holds indices into state.stack:
+	// they have to follow the elements they refer to when stack[i:j] is removed.
+	removedFromStack := func(i, j int) {
+		for k, b := range openersBottom {
+			switch {
+			case b >= j:
+				openersBottom[k] = b - (j - i)
+			case b > i:
+				openersBottom[k] = i
+			}
+		}
+	}
 closerLoop:
 	for {
 		// Move current_position forward in the delimiter stack (if needed)
@@ -1404,6 +1416,7 @@ closerLoop:
 
 			// Remove any delimiters between the opener and closer from the delimiter stack.
 			state.stack = deleteDelimiterStack(state.stack, openerIndex+1, currentPosition)
+			removedFromStack(openerIndex+1, currentPosition)
 			currentPosition = openerIndex + 1
 
 			// If either the opening or the closing text nodes became empty,
@@ -1411,11 +1424,13 @@ closerLoop:
 			if opener.Span().Len() == 0 {
 				state.remove(opener)
 				state.stack = deleteDelimiterStack(state.stack, openerIndex, openerIndex+1)
+				removedFromStack(openerIndex, openerIndex+1)
 				currentPosition--
 			}
 			if closer.Span().Len() == 0 {
 				state.remove(closer)
 				state.stack = deleteDelimiterStack(state.stack, currentPosition, currentPosition+1)
+				removedFromStack(currentPosition, currentPosition+1)
 			}
 		} else {
 			// We know that there are no openers for this kind of closer up to and including this point,
@@ -1428,6 +1443,7 @@ closerLoop:
 				copy(state.stack[currentPosition:], state.stack[currentPosition+1:])
 				state.stack[len(state.stack)-1] = delimiterStackElement{}
 				state.stack = state.stack[:len(state.stack)-1]
+				removedFromStack(currentPosition, currentPosition+1)
 			} else {
 				currentPosition++
 			}
